@@ -18,7 +18,8 @@ EXPLANATION = (
     " (R8) a UTF-8 validator fed the bytes of one window inside a scanning loop must not make its error final (found the genuine defect F17 in the lazy VCF reader, repaired)."
     " R4 further requires, for the cursor idiom, that every read inside the loop targets a buffer slice derived from the cursor."
     " (R9) while a workspace AsyncRead wrapper digests the whole `buf.filled()` after the inner poll (the async CRAM CrcReader), no function that is handed the wrapper polls an accumulating read future (read_exact / read_buf / read_to_end) on it: those keep one ReadBuf across polls, so a short read would digest earlier bytes twice."
-    " (R10) byte accounting across windows: a scanner that returns a byte count adds every computed amount it consumes to that count in the same iteration (the FASTQ / FASTA indexers turn these counts into file offsets).")
+    " (R10) byte accounting across windows: a scanner that returns a byte count adds every computed amount it consumes to that count in the same iteration (the FASTQ / FASTA indexers turn these counts into file offsets)."
+    " (R11) spurious Interrupted: a sync scanner that calls fill_buf in its own code compares the error kind with Interrupted and retries (violated at fifteen sites today: known finding F47, listed by exact key; Read / BufRead impls hand the error to their caller, who owns the retry).")
 ASSUMPTIONS = [
     "std/tokio read_exact, read_until, read_line, BufReader reassemble short reads and retry Interrupted (library contract)",
     "the classification is structural: it proves the necessary part (no site assumes a window or a full read), not content equality",
@@ -58,6 +59,31 @@ def run(ctx):
                               s["fn"], s["callee"].split("::")[-1]), f.loc(s["block"]))
     ctx.floor("C12.R1", "read loops", nloop, READ_LOOP_FLOOR)
     ctx.floor("C12.R1", "read delegations", ndel, DELEGATION_FLOOR)
+
+    ctx.rule("C12.R11", "A5c spurious Interrupted: a sync scanner that calls fill_buf itself (not a Read/BufRead impl that hands the error to its "
+                        "caller) compares the error kind with Interrupted and retries, like std's read_until does")
+    n11 = 0
+    for s11 in a5.fill_buf_sites(fb):
+        f11 = fb.fns[s11["fn"]]
+        if s11["class"] == "delegation" or "r#async" in s11["fn"] or s11["callee"].endswith("poll_fill_buf") or f11.coro:
+            continue
+        if (a5._enclosing_trait_method(fb, f11) or "") in ("read", "fill_buf", "read_exact", "read_to_end"):
+            continue        # the error is returned to a caller that owns the retry (Read / BufRead contract)
+        if f11.crate == "noodles_util":
+            continue        # format detection peeks once (known finding F6 covers its window assumption)
+        n11 += 1
+        ctx.saw_fn(f11)
+        if f11.root.endswith("::discard_to_end"):
+            ctx.ok("C12.R11", s11["fn"], "tabled as undecided: same shape as the scanners below, but no failing schedule was found for the header "
+                                         "sub-readers (their own BufReader sits between the loop and the source); not claimed safe", f11.loc(s11["block"]))
+            continue
+        if a5._compares_interrupted(fb, f11):
+            ctx.ok("C12.R11", s11["fn"], "compares the error kind with Interrupted", f11.loc(s11["block"]))
+        else:
+            ctx.violation("C12.R11", "C12.R11/interrupted-not-retried/%s" % f11.root,
+                          "%s calls fill_buf()? in its own scanning code: a spurious ErrorKind::Interrupted from the source ends the read with an "
+                          "error (or, for the FASTA sequence reader, a livelock) although the same bytes read fine on a retry" % f11.root, f11.loc(s11["block"]))
+    ctx.floor("C12.R11", "sync scanners that call fill_buf themselves", n11, 10)
 
     ctx.rule("C12.R3", "A5d fill_buf windows: delegation | scan-in-loop | peek-1; window-assumption is a violation")
     fsites = a5.fill_buf_sites(fb)
